@@ -59,6 +59,38 @@ def _setup():
     return _M
 
 
+def _send(fd, obj):
+    import pickle
+    import struct
+
+    data = pickle.dumps(obj, protocol=pickle.HIGHEST_PROTOCOL)
+    data = struct.pack("<Q", len(data)) + data
+    view = memoryview(data)
+    while view:
+        n = os.write(fd, view[:1 << 20])
+        view = view[n:]
+
+
+def _recv(fd):
+    import pickle
+    import struct
+
+    def read_exact(n):
+        buf = bytearray()
+        while len(buf) < n:
+            chunk = os.read(fd, min(1 << 20, n - len(buf)))
+            if not chunk:
+                return None
+            buf += chunk
+        return bytes(buf)
+
+    head = read_exact(8)
+    if head is None:
+        return None
+    body = read_exact(struct.unpack("<Q", head)[0])
+    return None if body is None else pickle.loads(body)
+
+
 def tables_digest(ts):
     """Digest of everything except provenance (times, metadata bytes, mutation nodes, ...)."""
     t = ts.dump_tables()
@@ -167,12 +199,116 @@ class C09Engine(Engine):
                 "probe.approx_prior_warm_vs_cold"]
 
     # ------------------------------------------------------------------
+    # ------------------------------------------------------------------
+    # Process isolation.  The history of a run executes in a forked CHILD of this process and every reference
+    # evaluation in a forked GRANDCHILD that is created from this process, which itself never calls into tsdate after
+    # the warm-up.  So (a) a run can never be influenced by the runs that came before it in the same worker
+    # (module-level state in tsdate would otherwise make digests depend on the order of runs), and (b) the reference a
+    # call is compared with is computed in a pristine interpreter state, i.e. it is what a fresh process would
+    # return - a call whose output depends on EARLIER calls of the same history differs from it.
     def run(self, tape):
+        import pickle
+        import traceback as tb
+
+        c2p_r, c2p_w = os.pipe()
+        p2c_r, p2c_w = os.pipe()
+        pid = os.fork()
+        if pid == 0:  # ---- child: the history
+            code = 0
+            try:
+                os.close(c2p_r)
+                os.close(p2c_w)
+
+                def ask_ref(tables, kw_ref, prior_params):
+                    _send(c2p_w, ("ref", tables, kw_ref, prior_params))
+                    return _recv(p2c_r)
+
+                res = self._run_body(tape, ask_ref)
+                res["stats"] = dict(res["stats"])
+                _send(c2p_w, ("done", res, tape.values, tape.labels))
+            except BaseException as e:  # noqa: BLE001
+                try:
+                    _send(c2p_w, ("error", f"{type(e).__name__}: {e}\n{tb.format_exc()}"))
+                except BaseException:  # noqa: BLE001
+                    code = 3
+            finally:
+                os._exit(code)
+        # ---- parent: serves reference requests from pristine state
+        os.close(c2p_w)
+        os.close(p2c_r)
+        try:
+            while True:
+                msg = _recv(c2p_r)
+                if msg is None:
+                    raise HarnessError("C09: the process running the history died without a result")
+                if msg[0] == "ref":
+                    _send(p2c_w, self._pristine_reference(*msg[1:]))
+                elif msg[0] == "done":
+                    _, res, values, labels = msg
+                    tape.values[:] = values
+                    tape.labels[:] = labels
+                    import collections
+
+                    res["stats"] = collections.Counter(res["stats"])
+                    return res
+                else:
+                    raise HarnessError("C09: history process failed: " + msg[1])
+        finally:
+            os.close(c2p_r)
+            os.close(p2c_w)
+            os.waitpid(pid, 0)
+
+    def _pristine_reference(self, tables, kw_ref, prior_params):
+        """Evaluate in a grandchild forked from this (pristine) process; cold private cache directory."""
+        r, w = os.pipe()
+        pid = os.fork()
+        if pid == 0:
+            code = 0
+            try:
+                os.close(r)
+                import shutil
+                import tempfile
+
+                import appdirs
+
+                M = _setup()
+                box = tempfile.mkdtemp(prefix="verif-c09-ref-")
+                appdirs.user_cache_dir = lambda *a, **k: os.path.join(box, "cache")
+                clk = vclock.VClock(tick=0.001)
+                vclock.install(clk, M["clock_modules"])
+                try:
+                    ts = tables.tree_sequence()
+                    kw = dict(kw_ref)
+                    if prior_params is not None:
+                        kw["priors"] = self.build_prior(M["tsdate"], ts, prior_params)
+                    out = self.evaluate(M["tsdate"], ts, kw)
+                finally:
+                    shutil.rmtree(box, ignore_errors=True)
+                _send(w, out)
+            except BaseException as e:  # noqa: BLE001
+                try:
+                    _send(w, ("harness-error", f"{type(e).__name__}: {e}"))
+                except BaseException:  # noqa: BLE001
+                    code = 3
+            finally:
+                os._exit(code)
+        os.close(w)
+        try:
+            out = _recv(r)
+        finally:
+            os.close(r)
+            os.waitpid(pid, 0)
+        if out is None or out[0] == "harness-error":
+            raise HarnessError(f"C09: reference evaluation failed: {out}")
+        return out
+
+    def _run_body(self, tape, ask_ref):
         M = _setup()
         tsdate = M["tsdate"]
         res = blank_result()
         log = EventLog()
         stats = res["stats"]
+        self._ask_ref = ask_ref
         n_ts = 1 + tape.choose("n_ts", 3)
         inputs = []
         for i in range(n_ts):
@@ -343,14 +479,14 @@ class C09Engine(Engine):
         # ---- clean reference: fresh prior, no pool -----------------------------------------
         if key not in reference:
             kw_ref = dict(kw)
+            prior_params = None
             if call["method"] != "variational_gamma":
                 kind, x = call["prior"]
                 if kind == "popsize":
                     kw_ref["population_size"] = x
                 else:
-                    params = shared[x]["params"] if kind == "shared" else x
-                    kw_ref["priors"] = self.build_prior(tsdate, ts, params)
-            reference[key] = self.evaluate(tsdate, ts, kw_ref)
+                    prior_params = shared[x]["params"] if kind == "shared" else x
+            reference[key] = self._ask_ref(ts.dump_tables(), kw_ref, prior_params)
             stats["reference_evaluations"] += 1
         ref = reference[key]
         if call["method"] != "variational_gamma":
